@@ -29,6 +29,9 @@ type KdcScript struct {
 	Body   string `json:"body"`  // valid | notder | trailing | empty
 	Realm  string `json:"realm"` // default | configured | unknown
 	Size   int    `json:"size"`  // Kerberos message size
+	// SizeCls: class of the kerb-message field: s0 (empty field), s3 (1..3 bytes: not even a length prefix),
+	// s4 (a prefix announcing an empty message), otherwise prefix + Size bytes
+	SizeCls string `json:"sizecls"`
 	KDCs   []struct {
 		TCP string `json:"tcp"` // reply-close | reply-keepopen | partial | close | silent | refuse
 		UDP string `json:"udp"` // reply | silent | refuse
@@ -80,6 +83,18 @@ func (r *Runner) RunKdc(s *KdcScript, tw *TraceWriter, rng *rand.Rand) error {
 	kerb := make([]byte, 4+len(msg))
 	binary.BigEndian.PutUint32(kerb, uint32(len(msg)))
 	copy(kerb[4:], msg)
+	switch s.SizeCls {
+	case "s0":
+		kerb, msg = []byte{}, nil
+	case "s3":
+		kerb, msg = make([]byte, 1+rng.Intn(3)), nil
+		rng.Read(kerb)
+	case "s4":
+		kerb, msg = []byte{0, 0, 0, 0}, []byte{}
+	}
+	if s.SizeCls == "" {
+		s.SizeCls = "s1400"
+	}
 	pm := kdcProxyMsg{Message: kerb}
 	switch s.Realm {
 	case "configured":
@@ -185,7 +200,7 @@ func (r *Runner) RunKdc(s *KdcScript, tw *TraceWriter, rng *rand.Rand) error {
 		kd = []M{}
 	}
 	cls := s.Method + "." + s.Len + "." + s.Body + "." + s.Realm
-	tw.Line(M{"ev": "kdc", "script": s.ID, "cls": cls, "target": "handler", "method": s.Method, "len": s.Len, "body": s.Body, "realm": s.Realm, "kdcs": kd, "size": s.Size,
+	tw.Line(M{"ev": "kdc", "script": s.ID, "cls": cls, "target": "handler", "method": s.Method, "len": s.Len, "body": s.Body, "realm": s.Realm, "kdcs": kd, "size": s.Size, "sizecls": s.SizeCls,
 		"status": status, "ms": ms, "replyOK": replyOK, "sentOK": sentOK, "anySent": anySent, "panicked": panicked, "partialOnly": partialOnly})
 	return nil
 }
